@@ -217,4 +217,5 @@ class C20(Prop):
         return [ParserCorr()]
 
 
+READY = True
 PROP = C20()
